@@ -37,6 +37,7 @@ Inductive wkind :=
 | WGenBlock | WGenInfo | WGenCanon | WHeadPtr | WGenApp | WChainCfg | WSnap | WOther
 | WTrie
 | WCState (h : nat) | WBlock (h : nat) (hastx : bool) | WBinfo (h : nat)
+| WBinfoAgain (h : nat)                   (* app-hash batch of a height that already had one: a new root, not on disk yet *)
 | WHead (h : nat) (dangling : bool).      (* dangling: the head pointer names a block that was never saved *)
 
 Inductive entry := EDb (w : wkind) | EWal (recs : list rkind).
@@ -86,6 +87,11 @@ Definition apply_db (w : wkind) (im : image) : image :=
   | WBlock h tx => {| i_blocks := i_blocks im ++ [h]; i_txblocks := i_txblocks im ++ [(h, tx)]; i_apps := i_apps im; i_tries := i_tries im; i_pending := i_pending im;
                    i_head := i_head im; i_cstates := i_cstates im; i_canon0 := i_canon0 im; i_badapps := i_badapps im; i_wal := i_wal im |}
   | WBinfo h => {| i_blocks := i_blocks im; i_txblocks := i_txblocks im; i_apps := i_apps im ++ [h]; i_tries := i_tries im; i_pending := Some h;
+                   i_head := i_head im; i_cstates := i_cstates im; i_canon0 := i_canon0 im;
+                   i_badapps := (if match i_head im with Some hd => h <=? hd | None => false end
+                                 then i_badapps im ++ [h] else i_badapps im);
+                   i_wal := i_wal im |}
+  | WBinfoAgain h => {| i_blocks := i_blocks im; i_txblocks := i_txblocks im; i_apps := i_apps im ++ [h]; i_tries := filter (fun x => negb (x =? h)) (i_tries im); i_pending := Some h;
                    i_head := i_head im; i_cstates := i_cstates im; i_canon0 := i_canon0 im;
                    i_badapps := (if match i_head im with Some hd => h <=? hd | None => false end
                                  then i_badapps im ++ [h] else i_badapps im);
